@@ -288,6 +288,8 @@ func renderOnce(c tcase, prefix []int, native bool) (string, []vmap.Choice) {
 
 var addrRE = regexp.MustCompile(`0x[0-9a-f]{6,}`)
 
+var progressFn = func() {}
+
 func checkCase(c tcase, dev int, nativeRuns int) *vlib.Outcome {
 	o := &vlib.Outcome{Counters: map[string]int64{}}
 	base, choices0 := renderOnce(c, nil, false)
@@ -323,6 +325,7 @@ func checkCase(c tcase, dev int, nativeRuns int) *vlib.Outcome {
 				np[i] = alt
 				out, ch2 := renderOnce(c, np, false)
 				o.Counters["executions"]++
+				progressFn()
 				o.Counters["order_alternatives"]++
 				if out != base {
 					fail("output depends on map iteration order", out, np)
@@ -365,6 +368,7 @@ func main() {
 		QuickDeadline:    150,
 		ThoroughDeadline: 1500,
 		Run: func(t *vlib.T) {
+			progressFn = t.Progress
 			dev, native := 1, 3
 			if t.Thorough() {
 				dev, native = 2, 10
